@@ -170,6 +170,31 @@ def oracle(ck):
         got = o["a_shifted"].to_numpy()
         if len(got) != len(exp) or not np.allclose(got, exp, atol=1e-14, equal_nan=False):
             ck.violation("df_timeshift on a %s frame does not return timeshift(column) row by row" % lab, dict(frame=lab), tag="df-index")
+    # records that are not float64 (ADC counts, float32): both paths still return the interpolated (float) values
+    for order in (1, 3, 7, 31):
+        h = (order + 1) // 2; N = 120
+        base_int = (np.arange(N) - N // 2) ** 2 if order >= 3 else 3 * np.arange(N) - 50          # integer quadratic / ramp
+        sfr = ck.rng.choice([0.5, 0.25, -1.75, 2.5])
+        exact = ((np.arange(N) + sfr - N // 2) ** 2) if order >= 3 else (3 * (np.arange(N) + sfr) - 50)
+        idx = np.arange(h + 3, N - h - 3)
+        for lab, rec in (("int64", base_int.astype(np.int64)), ("int32", base_int.astype(np.int32)), ("float32", base_int.astype(np.float32)), ("list of ints", [int(v) for v in base_int])):
+            for path, sh in (("constant", np.array(sfr)), ("time-varying", np.full(N, sfr)), ("time-varying", sfr + 0.25 * np.sin(np.arange(N) / 9.0))):
+                got = np.asarray(timeshift(rec, sh, order=order), float)
+                want = exact if np.ndim(sh) == 0 or np.all(sh == sfr) else (((np.arange(N) + sh - N // 2) ** 2) if order >= 3 else (3 * (np.arange(N) + sh) - 50))
+                if np.max(np.abs(got[idx] - want[idx])) > 1e-7 * (1 + np.max(np.abs(want))):
+                    ck.violation("%s path on a %s record (order %d): a polynomial of degree <= order is not reproduced at interior samples (error %g)" % (path, lab, order, float(np.max(np.abs(got[idx] - want[idx])))),
+                                 dict(order=order, dtype=lab, path=path, shift=sfr), tag="dtype")
+    # DataFrame wrapper applied again to its own output, and with a column named twice: every output column is timeshift(input column)
+    dfa = pd.DataFrame({"x": np.sin(np.arange(90) / 6.0), "y": np.cos(np.arange(90) / 4.0)})
+    o1 = df_timeshift(dfa, 4.0, 0.375)
+    o2 = df_timeshift(o1, 4.0, 0.8)
+    for c in o1.columns:
+        exp = np.asarray(timeshift(o1[c].to_numpy(), 0.8 * 4.0))
+        if (c + "_shifted") not in o2 or not np.allclose(o2[c + "_shifted"].to_numpy(), exp, atol=1e-13):
+            ck.violation("df_timeshift applied to its own output: column %s_shifted is not timeshift(input column %s)" % (c, c), dict(case="second pass", column=c), tag="df-second")
+    o3 = df_timeshift(dfa, 4.0, 0.375, columns=["x", "x"], inplace=True)
+    if not np.allclose(o3["x"].to_numpy(), np.asarray(timeshift(dfa["x"].to_numpy(), 0.375 * 4.0)), atol=1e-13) or not np.array_equal(o3["y"].to_numpy(), dfa["y"].to_numpy()):
+        ck.violation("df_timeshift(inplace=True) with a column named twice does not shift it by seconds*fs samples once", dict(case="duplicate column"), tag="df-second")
     # DataFrame wrapper: seconds*fs samples, selected numeric columns only
     df = pd.DataFrame({"a": np.sin(np.arange(100) / 7.0), "b": np.arange(100.0), "s": ["x"] * 100})
     fs, sec = 4.0, 0.625
